@@ -9,6 +9,7 @@ import (
 	"time"
 
 	"example.com/scion-time/core/client"
+	"example.com/scion-time/core/server"
 	"example.com/scion-time/net/ntp"
 
 	"verif.local/sim/simcore"
@@ -323,10 +324,11 @@ func c03World(t *testing.T, r *simcore.Run) any {
 		// Known defect F03: after one late kernel transmit timestamp a listener pairs every
 		// later reply with the previous reply's timestamp; classify such histories apart.
 		sfx := ""
-		if e.p.SrcConn.LateTx > 0 {
-			sfx = "+listener-after-late-kernel-tx-stamp"
-		} else if rxReused && ilResp {
+		if rxReused && ilResp {
 			sfx = "+receive-timestamp-reused-for-client-address"
+		} else if e.p.SrcConn.LateTx > 0 {
+			// (F03, repaired: a history that still ends here is reported as a violation)
+			sfx = "+listener-after-late-kernel-tx-stamp"
 		}
 		if T1x.Before(reqArr.Add(-eps)) || T1x.After(e.p.SentAt.Add(eps)) {
 			r.Fail("C03", "membership/t1"+sfx, "server receive timestamp was not taken between the request's arrival and the reply's departure; %s", desc)
@@ -358,7 +360,9 @@ func c03World(t *testing.T, r *simcore.Run) any {
 	okCount, errCount := 0, 0
 	gaps := make([]time.Duration, nmeas)
 	steps := make([]time.Duration, nmeas)
+	restartAt := make([]bool, nmeas) // the server process is restarted before this measurement: its timestamp store is empty again
 	for k := range gaps {
+		restartAt[k] = faulty && tp.Bool(1, 30, "srvrestart")
 		gaps[k] = time.Duration(tp.Range(int64(10*time.Millisecond), int64(4*time.Second), "gap"))
 		if tp.Bool(1, 5, "gaplong") {
 			gaps[k] = time.Duration(tp.Range(int64(3*time.Second), int64(10*time.Second), "gap2"))
@@ -383,6 +387,10 @@ func c03World(t *testing.T, r *simcore.Run) any {
 			for k := 0; k < nmeas && r.Violation() == nil; k++ {
 				if r.Sleep(fmt.Sprintf("gap:%s:%d", tag, k), w.cli.Node, gaps[k]).Killed {
 					return
+				}
+				if tag == "driver0" && restartAt[k] {
+					server.VerifResetTSS()
+					r.Fault("server-restart")
 				}
 				if tag == "driver0" && steps[k] != 0 {
 					w.srv.Clock.StepBy(steps[k])
